@@ -23,7 +23,7 @@ COMPONENTS = {
     ],
 }
 
-DETERMINISM_SCENARIOS = ["general", "election", "lease", "durability", "lag", "snapshot", "membership", "deadline"]
+DETERMINISM_SCENARIOS = ["staletail", "general", "election", "lease", "durability", "lag", "snapshot", "membership", "deadline"]
 
 
 def B(name, scenario, quick, thorough, masks=None):
@@ -44,7 +44,8 @@ PROPS = {
                         B("general", "general", 60, 600)]},
     "C06": {"batches": [B("general", "general", 120, 1200), B("durability", "durability", 80, 800),
                         B("lag", "lag", 40, 400), B("exposed_snapshot", "snapshot", 40, 400, masks=["batch_promote"])]},
-    "C07": {"batches": [B("election", "election", 100, 1000), B("lag", "lag", 100, 1000), B("general", "general", 80, 800)]},
+    "C07": {"batches": [B("staletail", "staletail", 140, 1400), B("election", "election", 60, 600), B("lag", "lag", 60, 600),
+                        B("general", "general", 40, 400)]},
     "C08": {"batches": [B("lag", "lag", 180, 1800), B("general", "general", 100, 1000)]},
     "C09": {"batches": [B("general", "general", 100, 1000), B("election", "election", 80, 800),
                         B("membership", "membership", 80, 800), B("lag", "lag", 40, 400)]},
@@ -55,6 +56,21 @@ PROPS = {
     "C14": {"batches": [B("general", "general", 140, 1400), B("election", "election", 100, 1000), B("deadline", "deadline", 40, 400)]},
     "C16": {"batches": [B("exposed_snapshot", "snapshot", 120, 1200, masks=["batch_promote"]),
                         B("general_exposed", "general", 60, 600, masks=["batch_promote"])]},
+    "C18": {"engine": "logsim", "batches": [B("buffered_log_crash", "c18", 1500, 15000, masks=[])],
+            "rule": "one evaluation = one generated operation plan (append / conflict-aware append from forking histories / purge / reset / "
+                    "flush / wait / crash+reopen) on the real BufferedRaftLog with its IO task over SimStorageEngine; distinct = distinct "
+                    "trace hash; non-trivial = at least one crash with reopen"},
+    "C19": {"engine": "logsim", "batches": [B("buffered_vs_model", "c19", 1500, 15000, masks=[])],
+            "rule": "one evaluation = one generated operation plan on the real BufferedRaftLog (IO task running concurrently) compared "
+                    "query by query with a plain reference log after every operation; distinct = distinct trace hash; non-trivial = more than 3 operations"},
+    "C20": {"engine": "logsim", "batches": [B("inorder", "c20", 500, 5000, masks=[]), B("arbitrary_indexes_exposed", "c20x", 150, 1500, masks=[])],
+            "rule": "one evaluation = one generated LogStore operation plan on the real File or RocksDB engine compared with a reference "
+                    "store after every operation and after reopen; non-trivial = more than 3 operations"},
+    "C21": {"engine": "logsim", "level": "fault_enumeration", "batches": [B("meta_crash_points", "c21", 40, 400, masks=[])],
+            "rule": "one evaluation = 3 generated (old, new) hard-state pairs; for each, every guarded crash point inside "
+                    "FileMetaStore::save_to_file is captured as a directory image (process-crash semantics) and, at points before the "
+                    "code synced, every prefix of every file that changed (torn write); each image is reopened. Exhaustive per pair over "
+                    "crash points x tear lengths; non-trivial = every run"},
     "C26": {"batches": [B("exposed_membership", "membership", 160, 1600, masks=["snapshot_install"]),
                         B("general_exposed", "general", 80, 800, masks=["snapshot_install"])]},
     "C27": {"batches": [B("membership", "membership", 180, 1800), B("general", "general", 60, 600)]},
